@@ -78,8 +78,8 @@ structure KeyTablesWf (T : KeyTables) : Prop where
   keyOps : ∃ cs, ∃ p ∈ T.paramRegistry, p.name = "key_ops" ∧ p.validator = .choices cs true
 
 structure JweRegWf (r : JweRegistry) : Prop where
-  algStr : ∃ p ∈ r.headerRegistry, p.name = "alg" ∧ p.validator = .str
-  encStr : ∃ p ∈ r.headerRegistry, p.name = "enc" ∧ p.validator = .str
+  algStr : ∃ p ∈ r.headerRegistry, p.name = "alg" ∧ p.validator = .str ∧ p.required = true
+  encStr : ∃ p ∈ r.headerRegistry, p.name = "enc" ∧ p.validator = .str ∧ p.required = true
   algs : ∀ a ∈ r.algs, JweAlgWf a
   encs : ∀ e ∈ r.encs, JweEncWf e
 
@@ -447,13 +447,18 @@ theorem decryptRecipient_doc (P : Prims) (hP : JwePrimErrs P) (E : Env)
 
 theorem checkSupported_doc (reg : HeaderRegistry) (h : Dict) : Doc (checkSupportedHeader reg (.obj h)) := Doc.ensure _ _ rfl
 
-theorem jweCheckHeader_doc (r : JweRegistry) (h : Dict) (halg : h.contains "alg" = true) (b : Bool) :
+theorem jweCheckHeader_doc (r : JweRegistry) (hr : JweRegWf r) (h : Dict) (b : Bool) :
     Doc (r.checkHeader (.obj h) b) := by
   unfold JweRegistry.checkHeader
   apply Doc.bind (checkCrit_doc h)
   intro _ _
   apply Doc.bind (validateRegistry_doc _ h true)
-  intro _ _
+  intro u hreg
+  cases u
+  have halg : h.contains "alg" = true := by
+    obtain ⟨p, hp, hn, _, hreq⟩ := hr.algStr
+    have := ((C15.validateRegistry_iff r.headerRegistry h).1 hreg).1 p hp hreq
+    rw [hn] at this; exact this
   apply Doc.bind (pyGetItemStr_obj_doc h "alg" halg)
   intro _ _
   apply Doc.bind (jweLookup_doc _ _ _ _ _)
@@ -470,13 +475,14 @@ theorem jweCheckHeader_doc (r : JweRegistry) (h : Dict) (halg : h.contains "alg"
 
 /-- What a successful `check_header(h, True)` establishes. -/
 theorem jweCheckHeader_ok (r : JweRegistry) (h : Dict) (hok : r.checkHeader (.obj h) true = .ok ()) :
+    (∀ p ∈ r.headerRegistry, p.required = true → h.contains p.name = true) ∧
     (∀ p ∈ r.headerRegistry, ∀ v, h.get? p.name = some v → C15.TypeOK p.validator v) ∧
     ∃ algv a, h.get? "alg" = some algv ∧ r.getAlg algv = .ok a ∧ MoreOk a h := by
   simp only [JweRegistry.checkHeader, bind_eq_ok] at hok
   obtain ⟨u1, _, u2, hreg, algv, hav, a, hga, hrest⟩ := hok
   cases u2
   have htyped := ((C15.validateRegistry_iff r.headerRegistry h).1 hreg).2
-  refine ⟨htyped, algv, a, ?_, hga, ?_⟩
+  refine ⟨((C15.validateRegistry_iff r.headerRegistry h).1 hreg).1, htyped, algv, a, ?_, hga, ?_⟩
   · simp only [pyGetItemStr, ofOpt_ok_iff] at hav; exact hav
   · cases hm : a.more with
     | nil =>
@@ -538,26 +544,24 @@ theorem jweLookup_str {α} (f : α → String) (t : List α) (rec : List String)
   · simp [throw, throwThe, MonadExceptOf.throw] at h
 
 /-- Per-recipient preconditions established by key resolution and extraction. -/
-structure RecipOk (m : JweMsg) (r : Recipient) : Prop where
-  alg : (recipientHeaders m r).contains "alg" = true
-  enc : (recipientHeaders m r).contains "enc" = true
+structure RecipOk (r : Recipient) : Prop where
   key : WfKey r.key
   sender : ∀ s, r.senderKey = some s → WfKey s
 
 theorem collectCeks_doc (P : Prims) (hP : JwePrimErrs P) (E : Env)
     (hops : ∀ op ∈ ["deriveKey", "decrypt", "unwrapKey"], (E.ops.find? (·.name == op)).isSome = true)
     (T : KeyTables) (hT : KeyTablesWf T) (reg : JweRegistry) (hreg : JweRegWf reg) (enc : JweEncRow) (m : JweMsg)
-    (rs : List Recipient) (hrs : ∀ r ∈ rs, RecipOk m r) : Doc (collectCeks P E T reg enc m rs) := by
+    (rs : List Recipient) (hrs : ∀ r ∈ rs, RecipOk r) : Doc (collectCeks P E T reg enc m rs) := by
   induction rs with
   | nil => exact Doc.ok _
   | cons r rest ih =>
     have hr := hrs r (by simp)
     unfold collectCeks
     simp only
-    apply Doc.bind (jweCheckHeader_doc reg _ hr.alg true)
+    apply Doc.bind (jweCheckHeader_doc reg hreg _ true)
     intro u hok
     cases u
-    obtain ⟨htyped, algv, a, hav, hga, hmore⟩ := jweCheckHeader_ok reg _ hok
+    obtain ⟨hreqd, htyped, algv, a, hav, hga, hmore⟩ := jweCheckHeader_ok reg _ hok
     have hget : pyGetItemStr (.obj (recipientHeaders m r)) "alg" = .ok algv := by simp [pyGetItemStr, Jose.ofOpt, hav]
     simp only [hget]
     apply Doc.bind (Doc.ok _)
@@ -571,8 +575,8 @@ theorem collectCeks_doc (P : Prims) (hP : JwePrimErrs P) (E : Env)
     subst this
     obtain ⟨sa, rfl⟩ := jweLookup_str _ _ _ _ _ _ hga
     have hmem : a' ∈ reg.algs := jweLookup_mem _ _ _ _ _ _ hga
-    obtain ⟨pe, hpe, hpen, hpev⟩ := hreg.encStr
-    obtain ⟨ev, hev⟩ := (Dict.contains_iff _ _).1 hr.enc
+    obtain ⟨pe, hpe, hpen, hpev, hpereq⟩ := hreg.encStr
+    obtain ⟨ev, hev⟩ := (Dict.contains_iff _ _).1 (by have := hreqd pe hpe hpereq; rw [hpen] at this; exact this)
     have hety := htyped pe hpe ev (by rw [hpen]; exact hev)
     rw [hpev] at hety
     obtain ⟨se, rfl⟩ := hety
@@ -587,7 +591,7 @@ theorem collectCeks_doc (P : Prims) (hP : JwePrimErrs P) (E : Env)
 theorem performDecrypt_doc (P : Prims) (hP : JwePrimErrs P) (E : Env)
     (hops : ∀ op ∈ ["deriveKey", "decrypt", "unwrapKey"], (E.ops.find? (·.name == op)).isSome = true)
     (T : KeyTables) (hT : KeyTablesWf T) (Z : ZipConsts) (reg : JweRegistry) (hreg : JweRegWf reg) (m : JweMsg)
-    (rs : List Recipient) (hrs : ∀ r ∈ rs, RecipOk m r) : Doc (performDecrypt P E T Z reg m rs) := by
+    (rs : List Recipient) (hrs : ∀ r ∈ rs, RecipOk r) : Doc (performDecrypt P E T Z reg m rs) := by
   unfold performDecrypt
   apply Doc.tryCatchEq _ _ _ rfl (by intro q h; cases h)
   intro e he
@@ -753,10 +757,107 @@ theorem c16_jwe_compact (P : Prims) (hP : JwePrimErrs P) (E : Env)
       intro r hr
       simp at hr
       subst hr
-      exact ⟨by simpa [recipientHeaders] using halg, by simpa [recipientHeaders] using henc, hkwf,
-        fun s hs => hsk.2 sk s hskok hs⟩
+      exact ⟨hkwf, fun s hs => hsk.2 sk s hskok hs⟩
     · intro _ _; exact Doc.pure _
   · exact Doc.error _ rfl
+
+/-! ## JSON serializations (flattened and general) of the documented shape -/
+
+theorem decodeEks_doc (rs : List JsonRecipient) : Doc (decodeEks rs) := by
+  induction rs with
+  | nil => exact Doc.ok _
+  | cons r rest ih =>
+    unfold decodeEks
+    split
+    · apply Doc.bind (b64d_doc _)
+      intro _ _
+      apply Doc.bind ih
+      intro _ _; exact Doc.pure _
+    · apply Doc.bind (Doc.pure _)
+      intro _ _
+      apply Doc.bind ih
+      intro _ _; exact Doc.pure _
+
+theorem attachKeys_doc (P : Prims) (E : Env) (K : KeyEnv) (m : JweMsg) (key : KeyArg) (hkey : WfKeyArg key)
+    (sender : Option KeyBase) (hs : WfSender sender) (eks : List (Option Dict × Bytes)) :
+    Doc (attachKeys P E K m key sender eks) ∧
+    ∀ rs, attachKeys P E K m key sender eks = .ok rs → ∀ r ∈ rs, RecipOk r := by
+  induction eks with
+  | nil =>
+    refine ⟨Doc.ok _, ?_⟩
+    intro rs h r hr
+    simp [attachKeys] at h
+    subst h; cases hr
+  | cons x rest ih =>
+    obtain ⟨h, ek⟩ := x
+    unfold attachKeys
+    simp only
+    have hgk := guessKey_doc P E K key (recipientHeaders m { header := h, key := default, senderKey := none, encryptedKey := ek }) hkey
+    have hsk := guessSenderKey_doc (recipientHeaders m { header := h, key := default, senderKey := none, encryptedKey := ek }) sender hs
+    refine ⟨?_, ?_⟩
+    · apply Doc.bind hgk.1
+      intro ⟨k, kid⟩ _
+      apply Doc.bind (checkUse_doc _ _)
+      intro _ _
+      apply Doc.bind hsk.1
+      intro _ _
+      apply Doc.bind ih.1
+      intro _ _; exact Doc.pure _
+    · intro rs hrs r hr
+      simp only [bind_eq_ok, pure_eq_ok] at hrs
+      obtain ⟨⟨k, kid⟩, hg, _, _, sk, hskok, others, hoth, rfl⟩ := hrs
+      rcases List.mem_cons.1 hr with rfl | hr'
+      · exact ⟨hgk.2 k kid hg, fun s hs' => hsk.2 sk s hskok hs'⟩
+      · exact ih.2 others hoth r hr'
+
+/-- **JWE JSON decryption raises only documented classes**, for every flattened or general JSON
+serialization of the documented shape (members of the declared Python types), every key argument and
+sender key. -/
+theorem c16_jwe_json (P : Prims) (hP : JwePrimErrs P) (E : Env)
+    (hops : ∀ op ∈ ["deriveKey", "decrypt", "unwrapKey"], (E.ops.find? (·.name == op)).isSome = true)
+    (K : KeyEnv) (T : KeyTables) (hT : KeyTablesWf T) (Z : ZipConsts) (reg : JweRegistry) (hreg : JweRegWf reg)
+    (key : KeyArg) (hkey : WfKeyArg key) (sender : Option KeyBase) (hsender : WfSender sender) (v : JweJson) :
+    Doc (decryptJson P E K T Z reg v key sender) := by
+  unfold decryptJson
+  apply Doc.bind (by intro e he; unfold toBytesAscii at he; split at he <;> simp at he; rw [← he]; rfl)
+  intro _ _
+  apply Doc.bind (jsonB64Decode_doc_jwe P hP _)
+  intro _ _
+  apply Doc.bind (by intro e he; unfold asDict at he; split at he <;> simp at he; rw [← he]; rfl)
+  intro prot _
+  apply Doc.bind (b64d_doc _)
+  intro ivb _
+  apply Doc.bind (b64d_doc _)
+  intro ctb _
+  apply Doc.bind (b64d_doc _)
+  intro tgb _
+  let mk : Option Bytes → JweMsg := fun aad =>
+    { kind := if v.general then .general else .flat, prot := prot, protSeg := strBytes v.prot, unprotected := v.unprotected,
+      aad := aad, iv := ivb, ciphertext := ctb, tag := tgb }
+  have rest : ∀ aad : Option Bytes, Doc (decodeEks v.recipients >>= fun eks =>
+      attachKeys P E K (mk aad) key sender eks >>= fun rs =>
+      performDecrypt P E T Z reg (mk aad) rs >>= fun pt => pure (pt, prot)) := by
+    intro aad
+    apply Doc.bind (decodeEks_doc _)
+    intro eks _
+    have hak := attachKeys_doc P E K (mk aad) key hkey sender hsender eks
+    apply Doc.bind hak.1
+    intro rs hrs
+    apply Doc.bind (performDecrypt_doc P hP E hops T hT Z reg hreg _ rs (hak.2 rs hrs))
+    intro _ _; exact Doc.pure _
+  cases v.aad with
+  | some a =>
+    simp only
+    apply Doc.bind (b64d_doc _)
+    intro _ _
+    apply Doc.bind (Doc.pure _)
+    intro aad _
+    exact rest aad
+  | none =>
+    simp only
+    apply Doc.bind (Doc.pure _)
+    intro aad _
+    exact rest aad
 
 /-- … and so does `jwt.decode` over the JWE transport. -/
 theorem c16_jwt_decode_jwe (P : Prims) (hP : JwePrimErrs P) (E : Env)
@@ -836,8 +937,8 @@ theorem c16_default_jwe_registry_wf (allowed : Option (List String)) (strict ver
     JweRegWf (Generated.mkJweRegistry allowed strict [] verifyAll drafts) := by
   have hall := c16_jwe_tables
   constructor
-  · exact ⟨{ name := "alg", validator := .str, required := true }, by simp only [Generated.mkJweRegistry, HeaderRegistry.update, List.foldl_nil]; decide, rfl, rfl⟩
-  · exact ⟨{ name := "enc", validator := .str, required := true }, by simp only [Generated.mkJweRegistry, HeaderRegistry.update, List.foldl_nil]; decide, rfl, rfl⟩
+  · exact ⟨{ name := "alg", validator := .str, required := true }, by simp only [Generated.mkJweRegistry, HeaderRegistry.update, List.foldl_nil]; decide, rfl, rfl, rfl⟩
+  · exact ⟨{ name := "enc", validator := .str, required := true }, by simp only [Generated.mkJweRegistry, HeaderRegistry.update, List.foldl_nil]; decide, rfl, rfl, rfl⟩
   · intro a ha
     apply jweAlgWfB_sound
     have h1 := List.all_eq_true.1 hall.1 a
